@@ -544,7 +544,8 @@ namespace Qryn.Sql
 theorem groups_rel {α β γ κ κ' δ} [BEq κ] [LawfulBEq κ] [BEq κ'] [LawfulBEq κ'] (f : α → γ) (f' : β → γ) (K : γ → κ')
     (enc : κ' → κ) (hinj : ∀ a b, enc a = enc b → a = b) (l : List α) (l' : List β) (h : l.map f = l'.map f')
     (F : List α → δ) (F' : List β → δ)
-    (hF : ∀ A B, A ≠ [] → (∀ a ∈ A, a ∈ l) → (∀ b ∈ B, b ∈ l') → A.map f = B.map f' → F A = F' B) :
+    (hF : ∀ A B, A ≠ [] → (∀ a ∈ A, a ∈ l) → (∀ b ∈ B, b ∈ l') → (∀ a ∈ A, ∀ a' ∈ A, K (f a) = K (f a')) →
+      A.map f = B.map f' → F A = F' B) :
     (groupsBy (fun a => enc (K (f a))) l).map (fun g => F g.2) = (groupsBy (fun b => K (f' b)) l').map (fun g => F' g.2) := by
   unfold groupsBy
   have hk : l.map (fun a => enc (K (f a))) = (l'.map (fun b => K (f' b))).map enc := by
@@ -559,14 +560,39 @@ theorem groups_rel {α β γ κ κ' δ} [BEq κ] [LawfulBEq κ] [BEq κ'] [Lawfu
     rw [hab, Bool.eq_iff_iff]
     simp only [beq_iff_eq]
     exact ⟨hinj _ _, fun e => by rw [e]⟩)
-  apply hF _ _ _ (fun a ha => (List.mem_filter.mp ha).1) (fun b hb => (List.mem_filter.mp hb).1) hfr
-  rw [List.mem_eraseDups] at hk'
-  obtain ⟨b, hb, rfl⟩ := List.mem_map.mp hk'
-  intro he
-  have : (List.filter (fun b' => K (f' b') == K (f' b)) l').map f' = [] := by rw [← hfr, he]; rfl
-  have hb' : b ∈ List.filter (fun b' => K (f' b') == K (f' b)) l' := List.mem_filter.mpr ⟨hb, by simp⟩
-  have := List.map_eq_nil_iff.mp this
-  rw [this] at hb'
-  simp at hb'
+  apply hF _ _ _ (fun a ha => (List.mem_filter.mp ha).1) (fun b hb => (List.mem_filter.mp hb).1) ?_ hfr
+  · rw [List.mem_eraseDups] at hk'
+    obtain ⟨b, hb, rfl⟩ := List.mem_map.mp hk'
+    intro he
+    have : (List.filter (fun b' => K (f' b') == K (f' b)) l').map f' = [] := by rw [← hfr, he]; rfl
+    have hb' : b ∈ List.filter (fun b' => K (f' b') == K (f' b)) l' := List.mem_filter.mpr ⟨hb, by simp⟩
+    have := List.map_eq_nil_iff.mp this
+    rw [this] at hb'
+    simp at hb'
+  · intro a ha a' ha'
+    have h1 := (List.mem_filter.mp ha).2
+    have h2 := (List.mem_filter.mp ha').2
+    simp only [beq_iff_eq] at h1 h2
+    rw [hinj _ _ h1, hinj _ _ h2]
 
+end Qryn.Sql
+
+namespace Qryn.Sql
+/-- one cell of the output row of a group -/
+def growCell (o : Oracles) (env : Env) (cols : List Expr) (grp : List Row) (c : Expr) : String × Val :=
+  (colName c, evalAgg o env (grp.map (fun r => aliasVals o env cols r ++ r)) (scope o env cols (colName c) (grp.headD [])) c)
+
+theorem grow_eq (o : Oracles) (env : Env) (cols : List Expr) (grp : List Row) :
+    grow o env cols grp = cols.map (growCell o env cols grp) := rfl
+end Qryn.Sql
+
+namespace Qryn.Sql
+theorem arrayJoin_rows_gen (o : Oracles) (db : Db) (env : Env) (T : Table) (h : env.lookup (.named "par_b") = some T) :
+    sourceRowsA o db env (.arrayJoinFrom (.withRef (.named "par_b")) (simpleCol "par_b.slice" "arr_b")) =
+      (T.map (qualify "par_b")).flatMap (fun r =>
+        match r.get "par_b.slice" with
+        | .tuples ts => ts.map (fun t => r ++ tupleCols "arr_b" t)
+        | _ => []) := by
+  simp [sourceRowsA, sourceRows, h, Alias.text, simpleCol, evalE, colName]
+  congr 1
 end Qryn.Sql
